@@ -2,6 +2,8 @@ package c19
 
 import (
 	"fmt"
+	"os"
+	"path/filepath"
 
 	"git.metabarcoding.org/obitools/obitools4/obitools4/pkg/obikmer"
 	"git.metabarcoding.org/obitools/obitools4/obitools4/pkg/obiseq"
@@ -24,6 +26,10 @@ func runConsensus(c *core.Ctx) {
 		L := []int{4, 9, 15, 22, 27, 28, 29, 29, 30}[r.Intn(9)]
 		rep := gen.DNA(r, L)
 		tpl := append(append(append(append(gen.DNA(r, 20+r.Intn(30)), rep...), gen.DNA(r, 15+r.Intn(30))...), rep...), gen.DNA(r, 20+r.Intn(30))...)
+		long := it%4 == 2
+		if long { // graphs of more than a thousand k-mers
+			tpl = append(tpl, gen.DNA(r, 1100+r.Intn(400))...)
+		}
 		req := L - 2 + r.Intn(5)
 		if req < 2 {
 			req = 2
@@ -35,6 +41,10 @@ func runConsensus(c *core.Ctx) {
 			var sl obiseq.BioSequenceSlice
 			for i := 0; i < 2+r.Intn(3); i++ {
 				sl = append(sl, bs(append([]byte{}, tpl...), 1+r.Intn(5)))
+			}
+			if long {
+				// one read that goes on alone beyond the template: k-mers seen once
+				sl = append(sl, bs(append(append([]byte{}, tpl[len(tpl)-200:]...), gen.DNA(r, 200)...), 1))
 			}
 			return sl
 		}
@@ -62,7 +72,19 @@ func runConsensus(c *core.Ctx) {
 		c.Risk(fmt.Sprintf("BuildConsensus k=%d repeat=%d", req, L))
 		var got *obiseq.BioSequence
 		var err error
-		if p, msg := guard(func() { got, err = obiconsensus.BuildConsensus(reads, "cons", req, 0, false, "") }); p {
+		// one case in three also asks for the description of the graph to be saved (--save-graph): what
+		// is written next to the result must not change the result; the identifier may hold a '/'
+		// (Illumina read names), in which case the file cannot be created and that is all
+		save, id, dir := it%3 == 1, "cons", ""
+		if save {
+			dir = filepath.Join(c.Dir, fmt.Sprintf("graphs-%d-%d", c.Idx, it))
+			defer os.RemoveAll(dir)
+			if it%2 == 1 {
+				id = "read_0001/1"
+			}
+			c.Count("consensus_with_saved_graph", 1)
+		}
+		if p, msg := guard(func() { got, err = obiconsensus.BuildConsensus(reads, id, req, 0, save, dir) }); p {
 			violate(c, "consensus:panic", "BuildConsensus panicked: "+msg, map[string]any{"requested_k": req, "repeat_length": L, "template": string(tpl)})
 			continue
 		}
